@@ -63,7 +63,7 @@ def showMap (m : PM) : String :=
 
 def showKeys (l : List String) : String := if l.isEmpty then "-" else ",".intercalate (sortKeys l)
 
-def allUnit (m : PM) : Bool := m.all fun kv => inUnit kv.2
+def allUnit (m : PM) : Bool := allInUnit m
 
 def keysOf (m : PM) : List String := m.map (·.1)
 
